@@ -14,7 +14,7 @@ from symx import core
 
 PID = "C02"
 EXPLANATION = (
-    "The solver chooses HTTP version (1.0/1.1), method (GET/HEAD/POST/PUT), request body (none/bytes/chunked stream), "
+    "The solver chooses HTTP version (1.0/1.1), method (GET/HEAD/POST/PUT), request body (none/bytes/async stream/json=/form dict), Expect: 100-continue on/off, a per-request cookie on/off, "
     "request Connection header (absent/close/keep-alive), response status (200/204/304/404), reason phrase (default / one with inner runs of whitespace), response body kind (empty, "
     "bytes with Content-Length, chunked stream, stream of unknown length), force_close, and where each direction's "
     "bytes are cut into two reads. A real ClientSession talks to a real web.Application through two in-memory transports "
@@ -22,7 +22,7 @@ EXPLANATION = (
     "caller sees the status, marker header and body the handler returned; the exchange completes; both ends agree on "
     "whether the connection stays open; a second request on the same session is answered correctly.")
 ASSUMPTIONS = [
-    "no compression (zlib is FFI), no file/sendfile bodies, no multipart (C19), no Expect: 100-continue, no TLS/proxies",
+    "no compression (zlib is FFI), no kernel sendfile (the in-memory loop has none: FileResponse takes its read/write fallback), no multipart (C19), no TLS/proxies",
     "bodies are short concrete markers (sizes around the 2 KiB / 64 KiB coalescing thresholds are not exercised in this tier)",
     "virtual time; a close of one in-memory transport is delivered to the other side as connection_lost",
 ]
@@ -31,6 +31,20 @@ TRUSTED = ["harness/vloop.py"]
 
 def exchange(ctx, version="1.1", methods=("GET", "HEAD", "POST", "PUT"), kinds=("empty", "bytes", "chunked", "stream"),
              deep=False):
+    import glob
+    import os
+
+    try:
+        return _exchange(ctx, version, methods, kinds, deep)
+    finally:
+        for fn in glob.glob(f"/var/tmp/c02f*{os.getpid()}.bin"):
+            try:
+                os.remove(fn)
+            except OSError:
+                pass
+
+
+def _exchange(ctx, version, methods, kinds, deep):
     import logging
 
     import aiohttp
@@ -41,21 +55,28 @@ def exchange(ctx, version="1.1", methods=("GET", "HEAD", "POST", "PUT"), kinds=(
     logging.disable(logging.CRITICAL)
     loop = install(VLoop())
     method = ctx.pick("method", list(methods))
-    req_body = ctx.pick("req_body", ["none", "bytes", "stream"]) if method in ("POST", "PUT") else "none"
-    conn_hdr = ctx.pick("connection_header", [None, "close", "keep-alive"])
-    status = ctx.pick("status", [200, 204, 304, 404])
+    req_body = ctx.pick("req_body", ["none", "bytes", "stream", "json", "form"]) if method in ("POST", "PUT") else "none"
+    expect100 = ctx.flag("expect_100_continue") if req_body != "none" else False
+    send_cookie = ctx.flag("request_cookie")
+    # quick tier: the newer dimensions (json/form bodies, Expect, cookie) are added to the product, not multiplied into it
+    light = not deep and (req_body in ("json", "form") or expect100 or send_cookie)
+    conn_hdr = ctx.pick("connection_header", [None] if light else [None, "close", "keep-alive"])
+    status = ctx.pick("status", [200] if light else [200, 204, 304, 404])
     kind = ctx.pick("resp_body", list(kinds))
-    force_close = ctx.flag("force_close")
+    force_close = False if light else ctx.flag("force_close")
     # a reason phrase and a header value with inner runs of whitespace (to be delivered verbatim)
     reason = ctx.pick("reason", [None, "Quota  exceeded\there"]) if status == 200 else None
     # thorough: response body sizes around the writer's coalescing threshold and the reader's 64 KiB limit
     pad = ctx.pick("resp_body_size", [0, 2047, 2048, 2049, 70000]) if deep and kind != "empty" else 0
     req_pad = ctx.pick("req_body_size", [0, 2049, 70000]) if deep and req_body != "none" else 0
     seen = []
+    seen_cookies = []
+    tmpfiles = []
 
     async def handler(request):
         body = await request.read()
         seen.append((request.method, request.path_qs, request.headers.get("X-Marker"), bytes(body)))
+        seen_cookies.append(request.cookies.get("ck"))
         tag = f"resp{len(seen)}".encode()
         if len(seen) == 1 and pad:
             tag = tag + b"." * (pad - len(tag))
@@ -66,6 +87,16 @@ def exchange(ctx, version="1.1", methods=("GET", "HEAD", "POST", "PUT"), kinds=(
             resp = web.Response(status=status, reason=reason, headers=hdrs)
         elif kind == "bytes":
             resp = web.Response(status=status, reason=reason, body=tag, headers=hdrs)
+        elif kind == "json":
+            resp = web.json_response({"tag": tag.decode()}, status=status, reason=reason, headers=hdrs)
+        elif kind == "file":
+            import tempfile
+
+            f = tempfile.NamedTemporaryFile(prefix="c02f", suffix=f"{__import__('os').getpid()}.bin", dir="/var/tmp", delete=False)
+            f.write(tag)
+            f.close()
+            tmpfiles.append(f.name)
+            resp = web.FileResponse(f.name, status=status, reason=reason, headers=hdrs)
         else:
             resp = web.StreamResponse(status=status, reason=reason, headers=hdrs)
             if kind == "chunked" and request.version >= (1, 1):
@@ -162,6 +193,14 @@ def exchange(ctx, version="1.1", methods=("GET", "HEAD", "POST", "PUT"), kinds=(
             kw["data"] = req_payload
         elif i == 1 and req_body == "stream":
             kw["data"] = gen()
+        elif i == 1 and req_body == "json":
+            kw["json"] = {"k": "v"}
+        elif i == 1 and req_body == "form":
+            kw["data"] = {"a": "b c", "d": "\u00e9"}
+        if i == 1 and expect100:
+            kw["expect100"] = True
+        if i == 1 and send_cookie:
+            kw["cookies"] = {"ck": "cv"}
         try:
             async with session.request(m, f"http://h/p{i}?q={i}", **kw) as resp:
                 body = await resp.read()
@@ -172,7 +211,7 @@ def exchange(ctx, version="1.1", methods=("GET", "HEAD", "POST", "PUT"), kinds=(
 
     def fail(key, **kw):
         info = {"key": key, "version": version, "method": method, "req_body": req_body, "connection": conn_hdr,
-                "status": status, "reason": reason, "resp_body": kind, "force_close": force_close, "cuts": [cut_c, cut_s],
+                "status": status, "reason": reason, "resp_body": kind, "expect100": expect100, "cookie": send_cookie, "force_close": force_close, "cuts": [cut_c, cut_s],
                 "seen": [[str(x)[:60] for x in s] for s in seen], "results": [[str(x)[:60] for x in r] for r in results]}
         info.update(kw)
         if links:
@@ -217,12 +256,17 @@ def exchange(ctx, version="1.1", methods=("GET", "HEAD", "POST", "PUT"), kinds=(
     if r1[1] == "error":
         return fail("exchange-fails:" + str(r1[2]))
     # ---- request as seen by the handler
-    want_body = req_payload if req_body in ("bytes", "stream") else b""
+    want_body = req_payload if req_body in ("bytes", "stream") else \
+        (b'{"k": "v"}' if req_body == "json" else (b"a=b+c&d=%C3%A9" if req_body == "form" else b""))
     if not seen or seen[0] != (method, "/p1?q=1", "m1", want_body):
         return fail("request-altered-in-transit")
+    if seen_cookies[0] != ("cv" if send_cookie else None):
+        return fail("request-cookie-altered-in-transit", got=repr(seen_cookies[0]))
     # ---- response as seen by the caller
     bodyless = method == "HEAD" or status in (204, 304)
     want_resp_body = b"" if (bodyless or kind == "empty") else (b"resp1" + b"." * max(0, pad - 5))
+    if kind == "json" and not bodyless:
+        want_resp_body = b'{"tag": "' + want_resp_body + b'"}' 
     if r1[1] != status or r1[2] != "r1":
         return fail("response-status-or-headers-altered")
     if r1[3] != want_resp_body:
@@ -272,7 +316,7 @@ def jobs(tier):
     out = []
     for v in ("1.1", "1.0"):
         for m in ("GET", "HEAD", "POST", "PUT"):
-            for k in ("empty", "bytes", "chunked", "stream"):
+            for k in ("empty", "bytes", "chunked", "stream", "json", "file"):
                 out.append(dict(name=f"x-{v}-{m}-{k}", func="exchange",
                                 params=dict(version=v, methods=[m], kinds=[k], deep=tier != "quick"), limits=lim))
     return out
@@ -286,6 +330,6 @@ REQUIRED_OUTCOMES = ("1.1:reused", "1.1:new-conn", "1.0:")
 
 
 def bounds(tier):
-    return {"product": "version {1.0,1.1} x method {GET,HEAD,POST,PUT} x request body {none, bytes, async stream} x Connection {absent, close, keep-alive} x status {200,204,304,404} x response body {empty, bytes, chunked stream, stream of unknown length} x force_close x 5 request cuts x 6 response cuts - complete",
+    return {"product": "version {1.0,1.1} x method {GET,HEAD,POST,PUT} x request body {none, bytes, async stream, json, form} x Expect: 100-continue x request cookie x Connection {absent, close, keep-alive} x status {200,204,304,404} x response body {empty, bytes, chunked stream, stream of unknown length, json, file} x force_close x 5 request cuts x 6 response cuts - complete",
             "second_request": "a GET on the same session after the first exchange",
             "thorough": "additionally response body sizes {5, 2047, 2048, 2049, 70000}, request body sizes {4, 2049, 70000}, 11 request cuts, 14 response cuts"}
